@@ -371,6 +371,9 @@ class Executor:
             a = z3.If(a, 1, 0)
         if is_z3(b) and z3.is_bool(b):
             b = z3.If(b, 1, 0)
+        if isinstance(a, VPtr) and is_int(b) and isinstance(op, (ast.Add, ast.Sub)):
+            # C pointer arithmetic in units of elements; forming an address is not an access (bounds are checked at the load/store)
+            return VPtr(a.ref, self.binop(st, op, a.offset, b, node))
         if not (is_num(a) and is_num(b)):
             raise OutOfSubset('binary operator on %r, %r at line %d' % (type(a).__name__, type(b).__name__, node.lineno))
         real = is_real(a) or is_real(b)
@@ -464,6 +467,19 @@ class Executor:
 
     def compare(self, st, op, a, b, node):
         if a is INF or b is INF:
+            # a finite number against +inf (the other operand is an int/real of the model, hence finite)
+            if a is INF and b is INF:
+                return isinstance(op, (ast.Eq, ast.LtE, ast.GtE))
+            if (is_num(a) or is_num(b)):
+                fin_left = b is INF
+                if isinstance(op, (ast.Lt, ast.LtE)):
+                    return fin_left
+                if isinstance(op, (ast.Gt, ast.GtE)):
+                    return not fin_left
+                if isinstance(op, ast.Eq):
+                    return False
+                if isinstance(op, ast.NotEq):
+                    return True
             raise OutOfSubset('comparison with inf at line %d' % node.lineno)
         if isinstance(op, (ast.Is, ast.IsNot)):
             if a is None or b is None:
@@ -552,6 +568,10 @@ class Executor:
                 return z3.Select(c.data, self.pack(x, c.elem_sort))
             if isinstance(c, DictContent):
                 return z3.Select(c.keys, self.pack(x, c.key_sort))
+            if isinstance(c, CDictContent):
+                if not isinstance(x, (int, str, bool, tuple)) or isinstance(x, VTuple) and not all(isinstance(e, (int, str)) for e in x):
+                    raise OutOfSubset('symbolic key in a concrete-key dict at line %d' % node.lineno)
+                return (tuple(x) if isinstance(x, VTuple) else x) in c.items
         raise OutOfSubset('`in` on %r at line %d' % (cont, node.lineno))
 
     def pack(self, x, sort):
@@ -593,6 +613,8 @@ class Executor:
     def subscript_load(self, st, base, idx, node):
         if isinstance(base, VOpaque):
             return VOpaque('subscript of ' + base.what)
+        if isinstance(base, VFunc) and isinstance(base.fn, tuple) and base.fn[0] == 'vecmethod':
+            return VOpaque('subscript of vec.' + base.fn[2])       # data attribute of an abstract vector (x.shape[0], ...)
         if is_vec(base):
             if isinstance(idx, slice) or isinstance(idx, VTuple):
                 return fresh_vec('sub')
@@ -663,6 +685,12 @@ class Executor:
                 k = self.pack(idx, c.key_sort)
                 self.oblige(st, 'safe:key', node, z3.Select(c.keys, k), 'key present (KeyError otherwise)')
                 return z3.Select(c.vals, k)
+            if isinstance(c, CDictContent):
+                key = tuple(idx) if isinstance(idx, VTuple) else idx
+                if not isinstance(key, (int, str, bool, tuple)):
+                    raise OutOfSubset('symbolic key in a concrete-key dict at line %d' % node.lineno)
+                self.oblige(st, 'safe:key', node, key in c.items, 'key present (KeyError otherwise)')
+                return c.items.get(key, VOpaque('missing'))
         raise OutOfSubset('subscript of %r at line %d' % (base, node.lineno))
 
     def flat_load(self, st, c, flat, node):
@@ -770,6 +798,12 @@ class Executor:
         return r
 
     def subscript_store(self, st, base, idx, val, node):
+        if isinstance(base, Ref) and isinstance(st.heap[base.id], CDictContent):
+            key = tuple(idx) if isinstance(idx, VTuple) else idx
+            if not isinstance(key, (int, str, bool, tuple)):
+                raise OutOfSubset('symbolic key in a concrete-key dict at line %d' % node.lineno)
+            st.heap[base.id].items[key] = val
+            return
         if isinstance(base, VArrView):
             c = st.heap[base.ref.id]
             ix = idx if isinstance(idx, VTuple) else VTuple((idx,))
@@ -1154,11 +1188,30 @@ class Executor:
                 return None
             if name == 'index':
                 raise OutOfSubset('list.index at line %d' % node.lineno)
+        if isinstance(c, SetListContent) and name == 'copy' and not args:
+            # dict.copy(): a new level -> set map with the same sets (sets are values in this model)
+            r = Ref(obj.label + '.copy')
+            st.heap[r.id] = c.copy()
+            return r
         if isinstance(c, SetListContent) and name == 'get':
             # a dict level -> set modelled as a total list of sets (absent key = empty set)
             idx = args[0]
             self.oblige(st, 'safe:index', node, z3.And(to_z3(idx) >= 0, to_z3(idx) < to_z3(c.length)), 'level within the modelled range')
             return VSetView(obj, idx)
+        if isinstance(c, SeqContent) and name == 'index' and len(args) in (1, 2):
+            # list.index(x[, start]): the smallest position >= start holding x; ValueError if there is none (an obligation)
+            x = to_z3(args[0])
+            start = to_z3(args[1]) if len(args) == 2 else z3.IntVal(0)
+            n = to_z3(c.length)
+            t = z3.Int(fresh_name('t'))
+            lo = z3.If(start < 0, z3.If(start + n < 0, 0, start + n), start)
+            self.oblige(st, 'safe:index-found', node, z3.Exists([t], z3.And(lo <= t, t < n, z3.Select(c.data, t) == x)),
+                        'list.index finds the value at or after the start position (ValueError otherwise)')
+            m = z3.Int(fresh_name('pos'))
+            t2 = z3.Int(fresh_name('t'))
+            self.assume(st, z3.And(lo <= m, m < n, z3.Select(c.data, m) == x,
+                                   z3.ForAll([t2], z3.Implies(z3.And(lo <= t2, t2 < m), z3.Select(c.data, t2) != x))))
+            return m
         if isinstance(c, SeqContent):
             if name == 'append':
                 v = args[0]
@@ -1203,7 +1256,8 @@ class Executor:
         if all(is_num(x) for x in items):
             srt = z3.RealSort() if any(is_real(x) for x in items) or not items else z3.IntSort()
             if not items:
-                srt = z3.RealSort()
+                # element sort of a list that starts empty: reals unless the contract says its lists hold ints
+                srt = z3.IntSort() if self.contract.options.get('empty_lists_int') else z3.RealSort()
         elif all(is_vec(x) for x in items):
             srt = VecSort
         else:
@@ -2044,8 +2098,22 @@ class Executor:
         bindings = [{}]
         if ptr_names:
             bindings = []
+            # a pointer variable assigned in the loop body may point anywhere into any candidate array at the loop head:
+            # both the target and the offset are havocked (the invariant has to pin them down)
+            # ... but only for pointers the body advances by arithmetic (p += k, p = p + k); pointers that are merely re-seated
+            # (a1, a2 = a2, a1; p = &a[i, 0]) keep the offsets they can take from those assignments
+            walked = set()
+            for stmt in body:
+                for n_ in ast.walk(stmt):
+                    if isinstance(n_, ast.AugAssign) and isinstance(n_.target, ast.Name):
+                        walked.add(n_.target.id)
+                    if isinstance(n_, ast.Assign) and isinstance(n_.value, ast.BinOp):
+                        for t_ in n_.targets:
+                            if isinstance(t_, ast.Name):
+                                walked.add(t_.id)
+            ofs = {n: (z3.Int(fresh_name(n + '.ofs')) if n in walked else head.env[n].offset) for n in ptr_names if isinstance(head.env[n], VPtr)}
             for combo in _it.product(cand, repeat=len(ptr_names)):
-                bindings.append({n: (VPtr(r, head.env[n].offset) if isinstance(head.env[n], VPtr) else r)
+                bindings.append({n: (VPtr(r, ofs[n]) if isinstance(head.env[n], VPtr) else r)
                                  for n, r in zip(ptr_names, combo)})
         results = []
         for bind in bindings:
@@ -2355,12 +2423,15 @@ class Executor:
                     self.oblige(s2, 'raises', node, S.conj(allowed(self.view(s2))), 'raise %s only when allowed' % exc, label=exc)
             else:
                 raise OutOfSubset('function ends with %r' % (out,))
+        # parts of the contract that bound to nothing: the obligations generated from the code that WAS executed are still returned
+        # (a refutation among them stands); the job is reported as drift (undecided) only if none of them is refuted
+        self.drift = None
         for (pat, _) in list(self.contract.checks) + list(self.contract.replace):
             if pat not in self.used_checks:
-                raise ContractDrift('write-time contract /%s/ of %s binds to no statement' % (pat, self.fn.name))
+                self.drift = 'write-time contract /%s/ of %s binds to no statement' % (pat, self.fn.name)
         unused = set(self.contract.loops) - self.used_loopspecs
         if unused:
-            raise ContractDrift('loop contracts %s of %s bind to no loop' % (sorted(unused), self.fn.name))
+            self.drift = 'loop contracts %s of %s bind to no loop' % (sorted(unused), self.fn.name)
         return self.obligations
 
     def concretize(self, st, val, model):
@@ -2603,6 +2674,10 @@ def _b_print(ex, st, node, *a, **k):
 
 
 def _b_dict(ex, st, node, *a, **k):
+    if not a and not k:
+        r = Ref('dict')                 # empty dict: modelled exactly as long as all keys are concrete
+        st.heap[r.id] = CDictContent()
+        return r
     return VOpaque('dict')
 
 
@@ -2644,6 +2719,10 @@ def _np_array(ex, st, node, x, *a, **k):
         return fresh_vec('array')
     if isinstance(x, Ref) and isinstance(st.heap[x.id], ArrContent):
         return fresh_vec('array')       # a copy, abstracted to a vector
+    if isinstance(x, Ref) and isinstance(st.heap[x.id], SeqContent):
+        r = Ref('ndarray')              # 1-d array with the elements of the list
+        st.heap[r.id] = st.heap[x.id].copy()
+        return r
     raise OutOfSubset('np.array of %r' % (x,))
 
 
